@@ -120,6 +120,7 @@ OVERLAYS = {
     "snaps_json_test.go": ("snaps", "zz_verif_json_test.go"),
     "snaps_diff_test.go": ("snaps", "zz_verif_diff_test.go"),
     "snaps_yaml_test.go": ("snaps", "zz_verif_yaml_test.go"),
+    "snaps_clean_test.go": ("snaps", "zz_verif_clean_test.go"),
 }
 
 
